@@ -345,6 +345,12 @@ def dispatch(task):
     return explore_world(task)
 
 
+def dispatch_more(item):
+    i, t = item
+    from vf.props import c02_refs, c02_selfcheck, c02_v2rewrite
+    return (c02_selfcheck.explore_ctx, c02_refs.explore, c02_v2rewrite.explore)[i](t)
+
+
 def tasks(tier):
     out = []
     plan = [(2, 2)] if tier == "quick" else [(3, 2), (2, 3)]
@@ -405,6 +411,18 @@ def run(rep, tier):
                 agg[k] = agg.get(k, 0) + v
         for sig, what, info in r["viol"]:
             rep.violation(sig, what, info)
+    # ---- the real self_check_output action with a verdict that depends on the user message shown in the check prompt; one bot
+    #      text recurring in later turns / conversations of one instance (vf/props/c02_selfcheck.py: explore_ctx)
+    # ---- bot texts shaped like variable references / templates, with such variables defined (vf/props/c02_refs.py)
+    # ---- Colang 2.x rails that rewrite the global $bot_message (vf/props/c02_v2rewrite.py)
+    from vf.props import c02_refs, c02_v2rewrite
+    more = [(c02_selfcheck.explore_ctx, c02_selfcheck.ctx_tasks(tier)), (c02_refs.explore, c02_refs.tasks(tier)), (c02_v2rewrite.explore, c02_v2rewrite.tasks(tier))]
+    for r in par.pmap(dispatch_more, [(i, t) for i, (_f, ts2) in enumerate(more) for t in ts2]):
+        for k, v in r.items():
+            if isinstance(v, int):
+                agg[k] = agg.get(k, 0) + v
+        for sig, what, info in r["viol"]:
+            rep.violation(sig, what, info)
     # ---- event level: the shipped guardrails library under the event API (vf/props/c02_events.py, E1 explorer)
     from vf.props import c02_events
     ev = {"states": 0, "transitions": 0, "traces_validated_against_impl": 0, "checked_utterances": 0, "output_rail_approvals": 0,
@@ -429,6 +447,9 @@ def run(rep, tier):
     rep.assumptions += [
         "rails are stub flows following the shape of the shipped self-check output rail; v2 refusal is uttered through `bot say` (guardrails library)",
         "scripted LLM, fake embedding engine",
+        "reference-shaped texts: shape `$name` x 9 variable names (caller-given incl. two chained aliases, library-set, undefined) and 4 control shapes x 3 names, in turn 1 or 2 of 2; Colang 2.x there uses the shipped `self check output` flow with a stub action reading the message from the context",
+        "verdict depending on the user message: real self_check_output action, every sequence of (user plain/flagged) x (bot text X/Y) over 3 turns (thorough 4), all conversations of a world on one LLMRails instance",
+        "Colang 2.x rewriting rails: rails rewrite by assigning the global $bot_message (the shape of the shipped `mask sensitive data on output` / `autoalign check output`), <=2 rails, verdicts {A,R,W}, 2 turns (thorough 3)",
         "event level: core.co + guardrails.co + three small bots (an answer the user can interrupt, two answers in a row, a started answer that is stopped) explored by the E1 explorer over all orders of user utterances and action results (rail verdicts True / False, utterance Started / Finished) to depth 12 (quick) / 15 (thorough); every emitted StartUtteranceBotAction with a non-refusal text needs an approving output-rails run of its own",
     ]
 
@@ -437,6 +458,15 @@ def replay(rp):
     if rp.get("part") == "events":
         from vf.props.c07 import replay as r7
         return r7(rp)
+    if rp.get("part") == "refs":
+        from vf.props import c02_refs
+        return c02_refs.replay(rp)
+    if rp.get("part") == "v2rewrite":
+        from vf.props import c02_v2rewrite
+        return c02_v2rewrite.replay(rp)
+    if rp.get("part") == "selfcheck-ctx":
+        from vf.props import c02_selfcheck
+        return c02_selfcheck.replay_ctx(rp)
     v2 = rp["version"] == "2.x"
     order = tuple(rp["order"])
     world = (rw.v2_world(in_order=("in1",), out_order=order, dialog=rp["dialog"], exceptions=rp["exceptions"], library=rp.get("library_rails", False)) if v2
